@@ -1376,6 +1376,10 @@ func (n *RegexNode) Format(buf *bytes.Buffer, indent string, onNewLine bool) {
 		onNewLine = true
 	}
 	writeIndent(buf, indent, onNewLine)
+	if n.Literal == "" && n.Regex != nil {
+		// The node was not created by the parser (literal value, JSON): derive the literal.
+		n.Literal = strings.Replace(n.Regex.String(), "/", "\\/", -1)
+	}
 	buf.WriteByte('/')
 	buf.WriteString(n.Literal)
 	buf.WriteByte('/')
